@@ -41,7 +41,8 @@ def _line_counter_problem(f, dividend, loops):
             for i, st in f.stmts():
                 if st["k"] == "assign" and st["rv"]["k"] == "binop" and st["rv"]["l"] is o.place["l"]:
                     for lp in loops:
-                        if i in lp.body and PR.all_paths_hit(f, lp.some, [i], stop_blocks={lp.header})[0]:
+                        # every way from reading a line back to the loop header passes the increment (leaving the loop is fine)
+                        if i in lp.body and lp.header not in f.reachable_from(lp.some, avoid={i}):
                             return None
     calls = [short(o.call.name) for o in os_ if o.kind == "call"]
     return "it is derived from %s" % (calls[0] if calls else "a value that is not advanced once per line")
